@@ -6,20 +6,20 @@ use sux::utils::FromIntoIterator;
 
 /// exploration of the assumed builder contract (A-C08a / C07): a built function returns the stored value for every key,
 /// whatever the expected_num_keys hint says, for the default shard edges, online and offline stores, low_mem on and off.
-/// input: [n, edge (0 Shards, 1 NoShards/[u64;2], 2 NoShards/[u64;1], 3 FullSigs), hint (0 exact, 1 none, 2 4n/3, 3 n/2), flags (1 offline, 2 low_mem, 4 boxed backend), seed]
+/// input: [n, edge (0 Shards, 1 NoShards/[u64;2], 2 NoShards/[u64;1], 3 FullSigs), hint (0 exact, 1 none, 2 4n/3, 3 n/2), flags (1 offline, 2 low_mem, 4 boxed backend, 8 a single worker thread), seed]
 fn case(inp: &[u64]) -> Result<(), String> {
     let (n, edge, hintm, flags, seed) = (inp[0] as usize, inp[1] % 4, inp[2] % 4, inp[3], inp[4]);
     let hint: Option<usize> = match hintm { 0 => Some(n), 1 => None, 2 => Some(n + n / 3), _ => Some(n / 2) };
     let val = move |k: usize| -> usize { (k.wrapping_mul(0x9E37_79B9_7F4A_7C15usize) ^ seed as usize) & 0xFFFF };
     macro_rules! go { ($S:ty, $E:ty) => {{
         if flags & 4 == 0 {
-            let mut b = VBuilder::<usize, BitFieldVec<usize>, $S, $E>::default().offline(flags & 1 != 0).low_mem(flags & 2 != 0).seed(seed);
+            let mut b = VBuilder::<usize, BitFieldVec<usize>, $S, $E>::default().offline(flags & 1 != 0).low_mem(flags & 2 != 0).seed(seed).max_num_threads(if flags & 8 != 0 { 1 } else { 8 });
             if let Some(h) = hint { b = b.expected_num_keys(h); }
             let f: VFunc<usize, usize, BitFieldVec<usize>, $S, $E> = b.try_build_func(FromIntoIterator::from(0..n), FromIntoIterator::from((0..n).map(val)), no_logging![]).map_err(|e| format!("build failed: {}", e))?;
             if f.len() != n { return Err(format!("len {} != {}", f.len(), n)); }
             for k in 0..n { if f.get(k) != val(k) { return Err(format!("get({}) = {} expected {}", k, f.get(k), val(k))); } }
         } else {
-            let mut b = VBuilder::<usize, Box<[usize]>, $S, $E>::default().offline(flags & 1 != 0).low_mem(flags & 2 != 0).seed(seed);
+            let mut b = VBuilder::<usize, Box<[usize]>, $S, $E>::default().offline(flags & 1 != 0).low_mem(flags & 2 != 0).seed(seed).max_num_threads(if flags & 8 != 0 { 1 } else { 8 });
             if let Some(h) = hint { b = b.expected_num_keys(h); }
             let f: VFunc<usize, usize, Box<[usize]>, $S, $E> = b.try_build_func(FromIntoIterator::from(0..n), FromIntoIterator::from((0..n).map(val)), no_logging![]).map_err(|e| format!("build failed: {}", e))?;
             for k in 0..n { if f.get(k) != val(k) { return Err(format!("get({}) = {} expected {} (boxed)", k, f.get(k), val(k))); } }
@@ -40,8 +40,8 @@ pub fn run(case_name: &str, ctx: &mut Ctx, one: Option<&str>, rng: &mut Rng, bud
     for edge in 0..4u64 { for n in [0u64, 1, 2, 3, 10, 100, 101, 1000] { for hint in 0..4u64 { for flags in [0u64, 1, 4] {
         let v = vec![n, edge, hint, flags, 3 + n]; let s = fmt_list(&v); ctx.trial(&s, false, || case(&v)); } } } }
     if budget >= 1000 {
-        for (n, edge, hint, flags) in [(100_000u64, 0u64, 0u64, 0u64), (120_000, 0, 1, 0), (90_000, 0, 2, 1), (199_990, 0, 0, 0), (250_000, 3, 3, 0), (150_000, 3, 0, 2), (300_000, 1, 1, 4), (200_000, 2, 2, 0), (810_000, 0, 0, 2)] {
+        for (n, edge, hint, flags) in [(100_000u64, 0u64, 0u64, 0u64), (120_000, 0, 1, 0), (90_000, 0, 2, 1), (199_990, 0, 0, 0), (250_000, 3, 3, 0), (150_000, 3, 0, 2), (300_000, 1, 1, 4), (200_000, 2, 2, 0), (810_000, 0, 0, 2), (120_000, 0, 0, 8), (250_000, 3, 0, 8)] {
             let v = vec![n, edge, hint, flags, 11 + n]; let s = fmt_list(&v); ctx.trial(&s, false, || case(&v)); }
     }
-    for _ in 0..budget.min(60) { let v = vec![rng.below(5000), rng.below(4), rng.below(4), rng.below(8), rng.next()]; let s = fmt_list(&v); ctx.trial(&s, false, || case(&v)); }
+    for _ in 0..budget.min(60) { let v = vec![rng.below(5000), rng.below(4), rng.below(4), rng.below(16), rng.next()]; let s = fmt_list(&v); ctx.trial(&s, false, || case(&v)); }
 }
